@@ -862,6 +862,67 @@ func swStreamC(r *Rng, n int, nBig int, out *AreaOut, add func(cs, desc, histKey
 		cancel()
 		sweeper.VerifSetClock(nil)
 		after, err := swDump(env, swNames(e))
+		// a SECOND pass of the same Sweeper object after the application replaced one DBI by another (same number of
+		// DBIs): every pass works on the DBIs that exist when it starts
+		if err == nil && serr == nil && fixedClock && r.Chance(30) && len(e) > 0 {
+			victim := e[r.Intn(len(e))].Name
+			newName := "zz_renamed"
+			if strings.HasPrefix(victim, "_sync") || !native {
+				newName = "_sync_shadow_renamed"
+			}
+			repl := swDBI{Name: newName}
+			for j, k := range [][]byte{[]byte("a"), []byte("b"), []byte("c"), []byte("d")} {
+				v := swVal(guess-1-uint64(j), 1, nil) // expired markers
+				if j == 1 {
+					v = swVal(guess+5, 1, nil) // a young one
+				}
+				if j == 3 {
+					v = swVal(7, 0, []byte("live"))
+				}
+				repl.Recs = append(repl.Recs, swRec{k, v})
+			}
+			uerr := env.Update(func(txn *lmdb.Txn) error {
+				dbi, err := txn.OpenDBI(victim, 0)
+				if err != nil {
+					return err
+				}
+				if err := txn.Drop(dbi, true); err != nil {
+					return err
+				}
+				nd, err := txn.OpenDBI(newName, lmdb.Create)
+				if err != nil {
+					return err
+				}
+				for _, p := range repl.Recs {
+					if err := txn.Put(nd, p.K, p.V, 0); err != nil {
+						return err
+					}
+				}
+				return nil
+			})
+			if uerr == nil {
+				var names2 []string
+				for _, d := range e {
+					if d.Name != victim {
+						names2 = append(names2, d.Name)
+					}
+				}
+				names2 = append(names2, newName)
+				sort.Strings(names2)
+				s0, e0 := swDump(env, names2)
+				sweeper.VerifSetClock(func(time.Time) time.Time { return time.Unix(1700000000, 0).Add(time.Duration(i) * time.Second) })
+				ctx2, cancel2 := context.WithTimeout(context.Background(), 20*time.Second)
+				serr2 := sw.VerifSweepOnce(ctx2)
+				cancel2()
+				sweeper.VerifSetClock(nil)
+				s1, e1 := swDump(env, names2)
+				if e0 == nil && e1 == nil {
+					hist(out.Hist, "real/second-pass-after-dbi-replaced")
+					swOracle(swOracleIn{S0: s0, S1: s1, Native: native, CutLo: guess, CutHi: guess, EndedOK: serr2 == nil,
+						Describe: map[string]any{"stream": "C(real Sweeper, second pass of the same Sweeper after a DBI was dropped and another created)", "dropped": victim, "created": newName, "native": native, "cutoff": guess, "error": fmt.Sprint(serr2), "before": s0.coq(), "after": s1.coq()}}, out)
+				}
+			}
+		}
 		done()
 		if err != nil {
 			return err
